@@ -4,6 +4,7 @@ import Karp.Model.Reservation
 import Karp.Spec.Reserved
 import Karp.Spec.ReservedLedger
 import Karp.Model.DraTracker
+import Karp.Model.DraBudget
 import Karp.Spec.DraExclusive
 import Karp.Driver.ReqJson
 
@@ -387,22 +388,80 @@ end Dra
 def entryJ (j : Json) : Except String Karp.Spec.DraExclusive.Entry := do
   let drv ← strF j "driver"
   let cls := if drv == "gpu.example.com" then "gpu" else if drv == "tmpl.example.com" then "tmpl" else if drv == "shared.example.com" then "shared"
-    else if drv == "part.example.com" then "part" else drv
-  pure { claim := ← strF j "claim", nc := ← strF j "nc", it := ← strF j "it", dev := ← strF j "dev", cls := cls,
+    else if drv == "part.example.com" then "part" else if drv == "tpart.example.com" then "tpart" else drv
+  pure { claim := ← strF j "claim", nc := ← strF j "nc", it := ← strF j "it", dev := ← strF j "dev", pool := (← strO j "pool").getD "", cls := cls,
          template := ← boolD j "template" false, consumed := ← intF j "consumed" }
 
 def claimSpecJ (j : Json) : Except String Karp.Spec.DraExclusive.ClaimSpec := do
   pure { name := ← strF j "name", cls := ← strF j "class", count := ← natF j "count", cap := (← intO j "cap").getD 0 }
 
+def sharedJ (j : Json) : Except String (String × Int × Int) := do
+  pure ((← strF j "name"), (← intF j "cap"), (← intO j "pre").getD 0)
+
+def partJ (j : Json) : Except String (String × Int × Bool) := do
+  pure ((← strF j "name"), (← intF j "w"), (← boolD j "pre" false))
+
+/-- the partitionable pools of a c17.alloc input: the legacy cluster-wide pool-c (`parts` / `slots`) and the explicit
+    `ppools` (their slices flattened: how a pool is published is no concern of the specification) -/
+def counterPools (inp : Json) : Except String (List Karp.Spec.DraExclusive.CPool) := do
+  let legacy ← (match fldOpt inp "parts" with | none => pure [] | some v => listOf partJ v)
+  let slots := (← intO inp "slots").getD 0
+  let more ← (match fldOpt inp "ppools" with
+    | none => pure []
+    | some v => listOf (fun j => do
+        let slices ← (match fldOpt j "slices" with
+          | none => pure []
+          | some sv => listOf (fun sj => do (match fldOpt sj "parts" with | none => pure [] | some pv => listOf partJ pv)) sv)
+        pure ({ name := ← strF j "name", slots := ← intF j "slots", parts := slices.flatten } : Karp.Spec.DraExclusive.CPool)) v)
+  pure ((if legacy.isEmpty then [] else [{ name := "pool-c", slots := slots, parts := legacy }]) ++ more)
+
+/-- the class of a c17.alloc verdict (the signature of the failure): a real over-consumption of a counter / a capacity is
+    kept apart from a mere mismatch of the tracker's bookkeeping, so that the witness of one is not shrunk into the other -/
+def allocClass (why : String) : String :=
+  let has (t : String) : Bool := (why.splitOn t).length > 1
+  if has "shared counter of pool" then "alloc:counter-overconsumed"
+  else if has "template counter of" then "alloc:template-counter-overconsumed"
+  else if has "exceeds its capacity" then "alloc:capacity-overconsumed"
+  else if has "remaining counter budget" then "alloc:counter-accounting"
+  else if has "tracker accounts" then "alloc:capacity-accounting"
+  else "alloc"
+
+/-- does a slice published with this access target the empty requirements / empty node name the pools are gathered with
+    at allocator construction?  (`sliceMatchesRequirements`: cluster-wide slices do, a selector on the well-known zone
+    label is compatible with undefined requirements, a node name never equals "", a custom label must be defined) -/
+def targetsEmpty (access : String) : Bool := access == "all" || access == "" || access.startsWith "zone:"
+
+/-- the pools as the budget model sees them at allocator construction: pool ↦ (`Pool`, names of the devices in use) -/
+def budgetPools (inp : Json) : Except String (List (String × Karp.DraBudget.Pool × List String)) := do
+  let legacy ← (match fldOpt inp "parts" with | none => pure [] | some v => listOf partJ v)
+  let slots := (← intO inp "slots").getD 0
+  let more ← (match fldOpt inp "ppools" with
+    | none => pure []
+    | some v => listOf (fun j => do
+        let slices ← (match fldOpt j "slices" with
+          | none => pure []
+          | some sv => listOf (fun sj => do
+              pure ((← strO sj "access").getD "all", ← (match fldOpt sj "parts" with | none => pure [] | some pv => listOf partJ pv))) sv)
+        let devs (t : Bool) := (slices.filter (fun sl => targetsEmpty sl.1 == t)).flatMap (fun sl => sl.2.map (fun d => (d.1, d.2.1)))
+        let pre := slices.flatMap (fun sl => (sl.2.filter (·.2.2)).map (·.1))
+        pure ((← strF j "name"), ({ total := ← intF j "slots", devices := devs true, nonTargeting := devs false } : Karp.DraBudget.Pool), pre)) v)
+  pure ((if legacy.isEmpty then [] else
+    [("pool-c", ({ total := slots, devices := legacy.map (fun d => (d.1, d.2.1)), nonTargeting := [] } : Karp.DraBudget.Pool), (legacy.filter (·.2.2)).map (·.1))]) ++ more)
+
+/-- `tparts`: instance type ↦ its template partitionable device -/
+def templatePools (inp : Json) : Except String (List Karp.Spec.DraExclusive.TPool) :=
+  match fldOpt inp "tparts" with
+  | some (.obj kvs) => kvs.toList.mapM (fun (it, j) => do
+      let parts ← (match fldOpt j "parts" with | none => pure [] | some pv => listOf partJ pv)
+      pure ({ it := it, slots := (← intO j "slots").getD 0, parts := parts.map (fun d => (d.1, d.2.1)) } : Karp.Spec.DraExclusive.TPool))
+  | _ => pure []
+
 def opAlloc (inp impl : Json) : Except String Resp := do
   let prealloc ← (match fldOpt inp "prealloc" with | none => pure [] | some v => strList v)
-  let sharedCap ← (match fldOpt inp "shared" with
-    | none => pure []
-    | some v => listOf (fun j => do pure ((← strF j "name"), (← intF j "cap"))) v)
-  let weights ← (match fldOpt inp "parts" with
-    | none => pure []
-    | some v => listOf (fun j => do pure ((← strF j "name"), (← intF j "w"))) v)
-  let slots := (← intO inp "slots").getD 0
+  let shared ← (match fldOpt inp "shared" with | none => pure [] | some v => listOf sharedJ v)
+  let pools ← counterPools inp
+  let tpools ← templatePools inp
+  let bpools ← budgetPools inp
   let ops ← arrF inp "ops"
   let claims ← ops.foldlM (fun (acc : List Karp.Spec.DraExclusive.ClaimSpec) o => do
     let cs ← (match fldOpt o "claims" with | none => pure [] | some v => listOf claimSpecJ v)
@@ -415,7 +474,12 @@ def opAlloc (inp impl : Json) : Except String Resp := do
   let steps ← arrF impl "steps"
   if steps.length != ops.length then throw "steps/ops length mismatch"
   -- walk the steps: specification on the metadata, tracker model replay
-  let mut t : Karp.DraTracker.Tracker := Karp.DraTracker.Tracker.new prealloc
+  -- the tracker model knows the devices that are allocated in the cluster by name: exclusive devices and partitions
+  let mut t : Karp.DraTracker.Tracker := Karp.DraTracker.Tracker.new
+    (prealloc ++ pools.flatMap (fun p => (p.parts.filter (·.2.2)).map (·.1)))
+  -- the budget model: one state per partitionable pool, initialised as `InitRemainingCounters` does
+  let mut budgets : List (String × Karp.DraBudget.St) :=
+    bpools.map (fun (n, p, pre) => (n, Karp.DraBudget.St.init (Karp.DraBudget.initRemaining pre p)))
   let mut seen : List String := []
   let mut specWhy : Option String := none
   let mut modelWhy : Option String := none
@@ -427,22 +491,26 @@ def opAlloc (inp impl : Json) : Except String Resp := do
     let result ← strF st "result"
     -- spec
     if specWhy.isNone then
-      match Karp.Spec.DraExclusive.metaOK prealloc sharedCap weights slots claims entries with
+      match Karp.Spec.DraExclusive.metaOK prealloc shared pools tpools claims entries with
       | some w => specWhy := some s!"op {i}: {w}"
       | none =>
         -- the tracker's pessimistic accounting of shared capacity equals the worst case of the published allocations
         let inflight ← match fldOpt st "inflight" with
           | some (.obj kvs) => kvs.toList.mapM (fun (k, v) => do pure (k, ← asInt v))
           | _ => pure []
-        match sharedCap.find? (fun (d, _) => (inflight.lookup d).getD 0 != Karp.Spec.DraExclusive.worstCase entries d) with
+        match shared.find? (fun (d, _) => (inflight.lookup d).getD 0 != Karp.Spec.DraExclusive.worstCase entries d) with
         | some (d, _) => specWhy := some s!"op {i}: the tracker accounts {(inflight.lookup d).getD 0} of {d} as consumed, the published allocations amount to {Karp.Spec.DraExclusive.worstCase entries d}"
         | none =>
-          -- … and so does its remaining shared-counter budget
-          match ← intO st "counter" with
+          -- … and so does its remaining shared-counter budget, for every pool it tracks: counter − what the partitions
+          -- in use in the cluster consume − worst case of the published allocations
+          let counters ← match fldOpt st "counters" with
+            | some (.obj kvs) => kvs.toList.mapM (fun (k, v) => do pure (k, ← asInt v))
+            | _ => pure []
+          match pools.find? (fun p => match counters.lookup p.name with
+              | none => false
+              | some rem => rem != p.slots - p.preConsumed - Karp.Spec.DraExclusive.worstCounter p entries) with
+          | some p => specWhy := some s!"op {i}: the tracker's remaining counter budget of pool {p.name} is {(counters.lookup p.name).getD 0}; counter {p.slots} − in use in the cluster {p.preConsumed} − worst-case consumption of the published allocations {Karp.Spec.DraExclusive.worstCounter p entries} = {p.slots - p.preConsumed - Karp.Spec.DraExclusive.worstCounter p entries}"
           | none => pure ()
-          | some rem =>
-            let want := slots - Karp.Spec.DraExclusive.worstCounter weights entries
-            if rem != want then specWhy := some s!"op {i}: the tracker's remaining counter budget is {rem}, counter − worst-case consumption of the published allocations = {want}"
     -- model
     if modelWhy.isNone then
       if kind == "allocate" then
@@ -455,9 +523,23 @@ def opAlloc (inp impl : Json) : Except String Resp := do
             if fresh.any (fun e => e.nc != nc) then modelWhy := some s!"op {i}: a fresh claim is recorded for another NodeClaim" else
             match t.commitPairs nc pairs with
             | .error p => modelWhy := some s!"op {i}: the tracker model panics ({Dra.panicName p}) on the allocator's choice"
-            | .ok t' => t := t'
+            | .ok t' =>
+              t := t'
+              -- the counters the fresh partitions consume, per pool and instance type, go through the budget model:
+              -- the guard `checkCounters` must have let them through
+              let mut nb : List (String × Karp.DraBudget.St) := []
+              for (pn, bst) in budgets do
+                let mine := fresh.filter (fun e => e.cls == "part" && e.pool == pn)
+                let weight (d : String) : Int := ((pools.find? (·.name == pn)).map (fun p => p.weight d)).getD 0
+                let new : List (String × Int) := ((mine.map (·.it)).eraseDups).map (fun it =>
+                  (it, Karp.Spec.DraExclusive.sumInt ((mine.filter (·.it == it)).map (fun e => weight e.dev))))
+                if modelWhy.isNone && !Karp.DraBudget.fits bst new then
+                  modelWhy := some s!"op {i}: the allocator committed the consumption {new} of pool {pn}'s counter, the budget model has {bst.remaining} left (the guard checkCounters refuses that)"
+                nb := nb ++ [(pn, bst.commit nc new)]
+              budgets := nb
       else
         let its ← (match fldOpt o "its" with | none => pure [] | some v => strList v)
+        budgets := budgets.map (fun (pn, bst) => (pn, bst.release nc its))
         match t.release nc its with
         | .error p => modelWhy := some s!"op {i}: the tracker model panics ({Dra.panicName p}) on release"
         | .ok t' => t := t'
@@ -471,6 +553,7 @@ def opAlloc (inp impl : Json) : Except String Resp := do
           -- the scheduler-side pruning (drop) is not part of the input of the model: re-synchronise on instance types that disappeared for nc
           let gone := (t.inflight.filter (fun (d, n, it) => n == nc && !wantInflight.contains (d ++ "|" ++ n ++ "|" ++ it))).map (·.2.2)
           let goneT := (t.template.filter (fun (n, it, d) => n == nc && !tr.template.contains (n ++ "|" ++ it ++ "|" ++ d))).map (·.2.1)
+          budgets := budgets.map (fun (pn, bst) => (pn, bst.release nc (gone ++ goneT).eraseDups))
           match t.release nc (gone ++ goneT).eraseDups with
           | .error p => modelWhy := some s!"op {i}: the tracker model panics ({Dra.panicName p}) on the pruned release"
           | .ok t' => t := t'
@@ -480,19 +563,26 @@ def opAlloc (inp impl : Json) : Except String Resp := do
         if mInflight != tr.inflight then modelWhy := some s!"op {i}: model holdings {mInflight}, real tracker {tr.inflight}"
         else if mByNC != tr.byNC then modelWhy := some s!"op {i}: model index {mByNC}, real tracker {tr.byNC}"
         else if mTemplate != tr.template then modelWhy := some s!"op {i}: model template holdings {mTemplate}, real tracker {tr.template}"
+        else
+          -- the budget model against the tracker's RemainingCounters
+          let counters ← match fldOpt st "counters" with
+            | some (.obj kvs) => kvs.toList.mapM (fun (k, v) => do pure (k, ← asInt v))
+            | _ => pure []
+          match budgets.find? (fun (pn, bst) => match counters.lookup pn with | none => false | some rem => rem != bst.remaining) with
+          | some (pn, bst) => modelWhy := some s!"op {i}: budget model: {bst.remaining} of pool {pn}'s counter remain, the real tracker says {(counters.lookup pn).getD 0}"
+          | none => pure ()
     seen := (seen ++ entries.map (·.claim)).eraseDups
     i := i + 1
   pure { allowed := some modelWhy.isNone, spec := some specWhy.isNone,
-         why := (specWhy.getD "") ++ (match modelWhy with | some w => " | model: " ++ w | none => "") }
+         why := (specWhy.getD "") ++ (match modelWhy with | some w => " | model: " ++ w | none => ""),
+         extra := specWhy.map (fun w => jObj [("signature", jStr (allocClass w))]) }
 
 
 /-! ## c17.drapass -/
 
 def opDraPass (inp impl : Json) : Except String Resp := do
   let prealloc ← (match fldOpt inp "prealloc" with | none => pure [] | some v => strList v)
-  let sharedCap ← (match fldOpt inp "shared" with
-    | none => pure []
-    | some v => listOf (fun j => do pure ((← strF j "name"), (← intF j "cap"))) v)
+  let shared ← (match fldOpt inp "shared" with | none => pure [] | some v => listOf sharedJ v)
   let claims ← (match fldOpt inp "claims" with | none => pure [] | some v => listOf claimSpecJ v)
   let podClaims ← (match fldOpt inp "pods" with
     | none => pure []
@@ -503,15 +593,26 @@ def opDraPass (inp impl : Json) : Except String Resp := do
   if (fldOpt impl "panic").isSome then
     return { allowed := some false, spec := some false, why := "the scheduler panicked: " ++ (toString (fldOpt impl "panic").get!) }
   let entries ← (match fldOpt impl "meta" with | none => pure [] | some v => listOf entryJ v)
-  let ncs ← (match fldOpt impl "claims" with
+  let passClaims (k : String) : Except String (List Karp.Spec.DraExclusive.PassClaim) :=
+    (match fldOpt impl k with
     | none => pure []
     | some v => listOf (fun j => do
         pure ({ host := ← strF j "host", pods := ← (match fldOpt j "pods" with | none => pure [] | some c => strList c),
                 its := ← (match fldOpt j "instanceTypes" with | none => pure [] | some c => strList c) } : Karp.Spec.DraExclusive.PassClaim)) v)
-  let verdict := match Karp.Spec.DraExclusive.metaOK prealloc sharedCap [] 0 claims entries with
+  -- new NodeClaims and the existing nodes that received pods (host = the allocator's id of the node)
+  let ncs := (← passClaims "claims") ++ (← passClaims "existing")
+  -- partitionable pools: the node-local ones of the existing nodes and the others
+  let nodePools ← (match fldOpt inp "nodes" with
+    | none => pure []
+    | some v => listOf (fun j => do
+        let parts ← (match fldOpt j "parts" with | none => pure [] | some pv => listOf partJ pv)
+        pure ({ name := "np-" ++ (← strF j "name"), slots := (← intO j "slots").getD 0, parts := parts } : Karp.Spec.DraExclusive.CPool)) v)
+  let pools := (nodePools.filter (fun p => !p.parts.isEmpty)) ++ (← counterPools inp)
+  let verdict := match Karp.Spec.DraExclusive.metaOK prealloc shared pools (← templatePools inp) claims entries with
     | some w => some w
     | none => Karp.Spec.DraExclusive.passComplete claims podClaims ncs entries
-  pure { allowed := some true, spec := some verdict.isNone, why := verdict.getD "" }
+  pure { allowed := some true, spec := some verdict.isNone, why := verdict.getD "",
+         extra := verdict.map (fun w => jObj [("signature", jStr ("drapass" ++ ((allocClass w).drop 5).toString))]) }
 
 def handle : Handler := fun op inp impl =>
   match op with
